@@ -13,7 +13,7 @@ META = dict(
     property="C56",
     level="exploration",
     technique="Hypothesis: value trees + format strings grown along the value tree (so lookups resolve and specs fit the type), metamorphic oracle original text == flattened text == JSON round-trip text",
-    level_text="Random events with 1-3 fields holding ints, floats, text (non-ASCII, lone surrogates, braces), bytes, None, bools, nested lists/tuples/dicts, objects with attributes/items and deterministic str/repr/format, and pure callables; format strings of 1-5 pieces whose fields walk the value tree ('.attr', '[key]', '[0]', '()' after a name or attribute, also in mid-chain), with !r/!s/!a conversions and type-appropriate (also nested '{w}') format specs, repeated fields, str and UTF-8 bytes formats. Only events that format successfully in the first place are judged. Sampled, not exhaustive; plus a small deterministic grid.",
+    level_text="Random events with 1-3 fields holding ints, floats, text (non-ASCII, lone surrogates, braces), bytes, None, bools, nested lists/tuples/dicts, objects with attributes/items and deterministic str/repr/format, and pure callables; format strings of 1-5 pieces whose fields walk the value tree ('.attr', '[key]', '[0]', '()' after a name or attribute, also in mid-chain), with !r/!s/!a conversions and type-appropriate (also nested '{w}') format specs, repeated fields, str and UTF-8 bytes formats. Only events that format successfully in the first place are judged. About half of the cases are additionally written with jsonFileLogObserver (record separators: default, none, a non-ASCII character, two control characters, two non-ASCII characters; bytes- and text-mode files) between filler events and read back with eventsFromJSONLogFile (bufferSize 1..4096, separator given or auto-detected): every event must come back, in order, with the original text; values contain the separator characters and lone surrogates. Sampled, not exhaustive; plus a small deterministic grid (all separators x chunk sizes x file modes).",
     level_note="Values are deterministic by construction (no identity-dependent repr, pure callables), checked by formatting the original twice. json, string.Formatter and Hypothesis are trusted. extractField, failures and log levels inside events are only carried along, not compared.",
     design_ref="§5 C56",
     rule="case = {fields, fmt pieces, bytesfmt}; non-trivial = the original formats without falling back to 'Unable to format', has at least one field and at least one of: lookup chain, call, conversion, format spec, container or object value; distinct by the whole case.",
@@ -237,13 +237,60 @@ def run_case(ctx, case):
         if t3 != t0:
             ctx.violation("json-second-round-trip-differs", case,
                           f"format {ev['log_format']!r}: original {t0!r}, after two JSON round trips ({label}) {t3!r}")
+    # ---- stage 3: the same through the module's file layer
+    if case.get("file"):
+        _file_round_trip(ctx, case, t0)
+
+
+def _filler(i):
+    return dict(log_format="filler {n} {s}", n=i, s="\xe9\u241e\u241f", log_namespace="c56")
+
+
+def _file_round_trip(ctx, case, t0):
+    """jsonFileLogObserver -> eventsFromJSONLogFile: every event comes back, in
+    order, and formats like the original."""
+    import io
+    from twisted.logger import formatEvent, jsonFileLogObserver, eventsFromJSONLogFile
+
+    f = case["file"]
+    sep, buf = f["sep"], f["buf"]
+    raw = io.BytesIO()
+    out = raw if f["wmode"] == "bytes" else io.TextIOWrapper(raw, encoding="utf-8", newline="", write_through=True)
+    observer = jsonFileLogObserver(out, sep)
+    fill = f.get("fill", 1)
+    events = [_filler(i) for i in range(fill)] + [make_event(case)] + [_filler(10 + i) for i in range(fill)]
+    want = [formatEvent(_filler(i)) for i in range(fill)] + [t0] + [formatEvent(_filler(10 + i)) for i in range(fill)]
+    for ev in events:
+        try:
+            observer(ev)
+        except Exception as e:
+            ctx.violation(f"json-file-write-raises:{type(e).__name__}", case, f"jsonFileLogObserver (sep {sep!r}, {f['wmode']} file) raises {e!r}")
+    data = raw.getvalue()
+    src = io.BytesIO(data)
+    if f["rmode"] == "text":
+        src = io.TextIOWrapper(src, encoding="utf-8", newline="")
+    try:
+        got = list(eventsFromJSONLogFile(src, recordSeparator=None if f.get("auto") and sep in ("\x1e", "") else sep, bufferSize=buf))
+    except Exception as e:
+        ctx.violation(f"json-file-read-raises:{type(e).__name__}", case, f"eventsFromJSONLogFile (sep {sep!r}, bufferSize {buf}, {f['rmode']} file) raises {e!r}")
+    texts = [formatEvent(e) for e in got]
+    ctx.count("file round trip")
+    if len(sep.encode("utf-8")) > 1:
+        ctx.count("file round trip: multi-byte record separator")
+        if buf < 64:
+            ctx.count("file round trip: multi-byte record separator read in small chunks")
+    if texts != want:
+        sig = "json-file-records-lost" if len(texts) < len(want) else "json-file-text-differs"
+        ctx.violation(sig, case, f"sep {sep!r}, bufferSize {buf}, write {f['wmode']}, read {f['rmode']}: "
+                                 f"wrote {len(want)} events {want!r}, read back {texts!r}")
 
 
 # --------------------------------------------------------------------------
 # generation: the format string is grown along the value tree
 
 _TEXT = st.one_of(st.text(max_size=5),
-                  st.sampled_from(["caf\xe9", "☃", "{x}", "{", "}}", "a\nb", "\ud800", "\x00", " ", "'\"\\"]))
+                  st.sampled_from(["caf\xe9", "☃", "{x}", "{", "}}", "a\nb", "\ud800", "\x00", " ", "'\"\\", "\u241e", "a\x1eb\u241e\u241f",
+                                   "\udcff.txt"]))
 _LEAF = st.one_of(
     st.builds(lambda n: ["i", n], st.one_of(st.integers(-1000, 10 ** 6), st.integers(-2 ** 70, 2 ** 70))),
     st.builds(lambda x: ["f", x], st.floats(allow_nan=False, allow_infinity=True)),
@@ -293,6 +340,22 @@ FLOAT_SPECS = ["", ".2f", "e", "10.3g", "+", "%", "{w}", ".{w}f"]
 
 
 _SWITCHES = ["", "", "", "", "", "", "", "", "", "", "m", "m", "m", "s", "s", "s", "a", "a", "sm", "asm", "b", "bsm"]
+
+
+SEPS = ["\x1e", "", "\u241e", "\x1e\x1d", "\u241e\u241f", "\x1e"]
+FILE = st.one_of(
+    st.none(),
+    st.integers(0, len(SEPS) * 8 * 2 * 2 * 2 * 3 - 1).map(lambda n: (lambda q: dict(
+        sep=SEPS[q[0]], buf=[1, 2, 3, 5, 7, 16, 64, 4096][q[1]], wmode=["bytes", "text"][q[2]],
+        rmode=["bytes", "text"][q[3]], auto=bool(q[4]), fill=q[5]))(_mixed(n, [len(SEPS), 8, 2, 2, 2, 3]))))
+
+
+def _mixed(n, radices):
+    out = []
+    for r in radices:
+        n, d = divmod(n, r)
+        out.append(d)
+    return out
 
 
 @st.composite
@@ -372,7 +435,7 @@ def CASE(draw):
             specs = ["", "", ""]
         spec = draw(st.sampled_from(specs)) if allow_spec else ""
         pieces.append(["field", name, chain, conv, spec])
-    return dict(fields=fields, fmt=pieces, bytesfmt=bytesfmt)
+    return dict(fields=fields, fmt=pieces, bytesfmt=bytesfmt, file=draw(FILE))
 
 
 def _grid_cases():
@@ -393,6 +456,15 @@ def _grid_cases():
     for p in singles:
         for bytesfmt in (False, True):
             yield dict(fields=fields, fmt=[["lit", "v="], p], bytesfmt=bytesfmt)
+    # the file layer: every separator x chunk size x file modes, with text that
+    # contains separator characters and a lone surrogate
+    tfields = [["t", ["s", "x\u241e\u241fy\x1e\udcffz"]], ["w", ["i", 6]]]
+    for sep in SEPS[1:5] + ["\x1e"]:
+        for buf in (1, 2, 3, 5, 7, 4096):
+            for wmode in ("bytes", "text"):
+                for rmode in ("bytes", "text"):
+                    yield dict(fields=tfields, fmt=[["lit", "t="], ["field", "t", [], "", ""], ["field", "t", [], "!r", ""]],
+                               bytesfmt=False, file=dict(sep=sep, buf=buf, wmode=wmode, rmode=rmode, auto=(buf == 3), fill=2))
     for p in singles:
         for q in singles[:8]:
             yield dict(fields=fields, fmt=[p, ["lit", " {and} "], q, ["lit", "\n"], p], bytesfmt=False)
